@@ -323,6 +323,8 @@ impl SymbolTable {
         if scope_type == ScopeType::Global && self.number_of_scopes() > 0 {
             panic!("The unique global scope must be the first scope.")
         }
+        #[cfg(oq3_verif)]
+        crate::verif::record("enter", &format!("{:?}", scope_type), "", -1);
         self.scope_symbol_table_stack
             .push(ScopeSymbolTable::new(scope_type))
     }
@@ -332,6 +334,8 @@ impl SymbolTable {
         // Trying to exit the global scope is a programming error.
         assert!(self.scope_symbol_table_stack.len() > 1);
         self.scope_symbol_table_stack.pop();
+        #[cfg(oq3_verif)]
+        crate::verif::record("exit", "", "", -1);
     }
 
     // Make a new binding without checking first whether a binding exists in
@@ -352,6 +356,13 @@ impl SymbolTable {
         // Map `name` to `symbol_id`.
         self.current_scope_mut()
             .insert(name, current_symbol_id.clone());
+        #[cfg(oq3_verif)]
+        crate::verif::record(
+            "bind",
+            name,
+            &format!("{:?}", typ),
+            current_symbol_id.0 as i64,
+        );
         current_symbol_id
     }
 
@@ -361,6 +372,8 @@ impl SymbolTable {
     pub fn new_binding(&mut self, name: &str, typ: &Type) -> Result<SymbolId, SymbolError> {
         // Can't create a binding if it already exists in the current scope.
         if self.current_scope_contains_name(name) {
+            #[cfg(oq3_verif)]
+            crate::verif::record("bindfail", name, &format!("{:?}", typ), -1);
             return Err(SymbolError::AlreadyBound);
         }
         Ok(self.new_binding_no_check(name, typ))
@@ -408,12 +421,16 @@ impl SymbolTable {
     pub fn lookup(&self, name: &str) -> Result<SymbolRecord<'_>, SymbolError> {
         for table in self.scope_symbol_table_stack.iter().rev() {
             if let Some(symbol_id) = table.get_symbol_id(name) {
+                #[cfg(oq3_verif)]
+                crate::verif::record("lookup", name, "", symbol_id.0 as i64);
                 return Ok(SymbolRecord::new(
                     &self.all_symbols[symbol_id.0],
                     symbol_id.clone(),
                 ));
             }
         }
+        #[cfg(oq3_verif)]
+        crate::verif::record("lookup", name, "", -1);
         Err(SymbolError::MissingBinding) // `name` not found in any scope.
     }
 
@@ -437,6 +454,33 @@ impl SymbolTable {
 impl Default for SymbolTable {
     fn default() -> Self {
         Self::new()
+    }
+}
+
+/// Verification hooks (only with `--cfg oq3_verif`): drive scopes without source text.
+#[cfg(oq3_verif)]
+impl SymbolTable {
+    pub fn verif_enter_scope(&mut self, scope_type: ScopeType) {
+        self.enter_scope(scope_type)
+    }
+
+    pub fn verif_scope_depth(&self) -> usize {
+        self.number_of_scopes()
+    }
+
+    pub fn verif_num_symbols(&self) -> usize {
+        self.all_symbols.len()
+    }
+}
+
+#[cfg(oq3_verif)]
+impl SymbolId {
+    pub fn verif_index(&self) -> usize {
+        self.0
+    }
+
+    pub fn verif_from_index(n: usize) -> SymbolId {
+        SymbolId(n)
     }
 }
 
